@@ -10,6 +10,7 @@ Composition of `parse_fields` / `getField_denotes` (parser half, `Props/C04Parse
 -/
 import KitProofs.Props.C04Parser
 import KitProofs.Props.C04Next
+import KitProofs.Props.C04Dst
 import KitProofs.Lemmas.CronBridge
 
 namespace Kit.CronBridge
@@ -244,6 +245,28 @@ theorem parse_then_next_every (env : Env) (text : List Char) (loc : Option Strin
   have h2 := every_spec d
   refine ⟨h1, ?_, rfl, h2.1, h2.2.1, h2.2.2.1, h2.2.2.2⟩
   simp only [everyNext]; omega
+
+/-- **Property C04, first sentence, on daylight-saving zones.**  The same end-to-end statement for
+every zone table passing `hourTable` (one-hour transitions on whole hours, ≥ 75 days apart,
+missing/repeated midnights included): accepted expression ⇒ `Next` realises the documented meaning
+of its fields on the wall clock, minimally, with the five-year zero rule, and terminates. -/
+theorem parse_then_next_spec_dst (env : Env) (o : Opts) (h2 : o.twoOptionals = false)
+    (spec : List Char) (s : SpecSchedule) (loc : Option String)
+    (h : parse env o spec = .ok (.spec s loc)) :
+    ∃ fs e, SixFields env o spec loc fs ∧ Reads fs e ∧
+      ∀ (z : Zone), hourTable z = true → ∀ tn : Int, NextSpec e z tn (next (toSched s) z tn) := by
+  obtain ⟨fs, e, h6, hr, hm⟩ := parse_meaning env o h2 spec s loc h
+  refine ⟨fs, e, h6, hr, fun z hz tn => ?_⟩
+  have hp := next_dst_tables z hz (toSched s) tn
+  cases hr' : next (toSched s) z tn with
+  | fuel => rw [hr'] at hp; exact hp
+  | «at» r =>
+    rw [hr'] at hp
+    obtain ⟨h1, h2', h3⟩ := hp
+    exact ⟨h1, (matches_iff hm _ _).1 h2', fun u hu1 hu2 hd => h3 u hu1 hu2 ((matches_iff hm _ _).2 hd)⟩
+  | zero =>
+    rw [hr'] at hp
+    exact fun u hu1 hu2 hd => hp u hu1 hu2 ((matches_iff hm _ _).2 hd)
 
 /-! ### non-vacuity -/
 
